@@ -16,8 +16,8 @@
 EXTENDS Integers, Sequences, FiniteSets, TLC
 
 CONSTANTS Cfgs, T
-VARIABLES cfg, count, statsProv, rootsProv, used, kind
-vars == <<cfg, count, statsProv, rootsProv, used, kind>>
+VARIABLES cfg, count, statsProv, rootsProv, used, kind, svdAt
+vars == <<cfg, count, statsProv, rootsProv, used, kind, svdAt>>
 
 Identity == <<-1>>
 
@@ -26,9 +26,11 @@ CfgOK(c) == /\ c.so \in {"shampoo", "sketchy"}
             /\ c.graft \in BOOLEAN /\ c.skipped \in BOOLEAN
             /\ (c.so = "sketchy" => c.SF = c.PF)
             /\ (c.skipped => c.graft)     \* skip rules are ignored without grafting
+            /\ c.ekfac \in BOOLEAN /\ (c.ekfac => c.so = "sketchy")
 
 Init == /\ cfg \in Cfgs /\ CfgOK(cfg) /\ count = 0
         /\ statsProv = <<>> /\ rootsProv = Identity /\ used = Identity /\ kind = "none"
+        /\ svdAt = -1
 
 \* a skipped parameter is masked out of the second-order transform: no statistics at all
 StatsAfter == IF ~cfg.skipped /\ count % cfg.SF = 0 THEN Append(statsProv, count) ELSE statsProv
@@ -42,6 +44,10 @@ Update ==
   /\ kind' = IF cfg.skipped THEN "graft"
              ELSE IF ~cfg.graft THEN "precond"
              ELSE IF count >= cfg.Start THEN "precond" ELSE "graft"
+  \* Sketchy with ekfac_svd: the sketch keeps its cadence, but the SVD factors used for
+  \* preconditioning (svd_result_u / svd_result_s / inv_prev_tail) are recomputed on EVERY step
+  \* from the current sketch and the current gradient
+  /\ svdAt' = IF cfg.ekfac /\ ~cfg.skipped THEN count ELSE svdAt
   /\ count' = count + 1
   /\ UNCHANGED cfg
 
@@ -58,5 +64,7 @@ Multiples(n, s) == [i \in 1..((n + s - 1) \div s) |-> (i - 1) * s]
 StatsClosedForm == ~cfg.skipped => statsProv = Multiples(count, cfg.SF)
 RootsClosedForm == (~cfg.skipped /\ count > 0) =>
                      rootsProv = Multiples(((count - 1) \div cfg.PF) * cfg.PF + 1, cfg.SF)
+EkfacEveryStep == [][(cfg.ekfac /\ ~cfg.skipped) => svdAt' = count]_vars
+EkfacOnlyThen  == [][svdAt' # svdAt => cfg.ekfac]_vars
 SkippedHasNoState == cfg.skipped => (statsProv = <<>> /\ rootsProv = Identity)
 =============================================================================
